@@ -246,6 +246,81 @@ def gen_sum_cases(ctx):
     return out
 
 
+def layout_pair_stage(ctx):
+    """DIRECT TEST ON THE IMPLEMENTATION (C03's statement itself, no model): the SAME two numbers, once with the right operand
+    listed like the left one (aligned lists, shared or separate storage) and once with it re-listed - the same names in another
+    order, or a superset with zero derivatives for the extra names - must give the same result by name, component by
+    component to 1e-12 of its own size, for + - * / %; operands of ordinary size and, for %, quotients up to 1e13 (where the
+    remainder keeps few digits and two evaluation orders can be told apart)."""
+    rng = random.Random(ctx.seed * 49979687 + 29)
+    th = ctx.tier == "thorough"
+    base_lists = [["x"], ["x", "y"], ["y", "x", "z"], ["x", "y", "z", "w"]]
+    jobs = []
+    for _ in range(1200 if th else 240 * ctx.scale):
+        kind = rng.choice([1, 2])
+        oc = rng.choice([0, 1, 2, 3, 4, 4])
+        la = rng.choice(base_lists)
+        big = oc == 4 and rng.random() < 0.6
+        ar = float(rng.choice([1, -1, 2.5, 7, -3])) * (10 ** rng.uniform(8, 13) if big else 1.0)
+        br = rng.choice([6.283185307179586, 0.3, 7.0, -1.7, 2.0]) if big or rng.random() < 0.5 else None
+        a = mk(rng, kind, la, re=ar)
+        b = mk(rng, kind, la, re=br)
+        r = rng.random()
+        if r < 0.5 and len(la) >= 2:
+            lb = list(la)
+            while lb == la:
+                rng.shuffle(lb)
+        elif r < 0.8:
+            lb = list(la) + [rng.choice(["q", "r"])]
+            rng.shuffle(lb)
+        else:
+            lb = [rng.choice(["q", "r"])] + list(la)
+        b2 = relist(rng, kind, b, lb)
+        p = rng.choice([0, 1])
+        jobs.append((kind, oc, a, b, b2, enc(kind, oc, p, a, b), enc(kind, oc, 0, a, b2)))
+    out = run_harness("dual", ["c " + " ".join(str(x) for x in j[5]) for j in jobs] + ["c " + " ".join(str(x) for x in j[6]) for j in jobs])
+    n = len(jobs)
+
+    def by_name(d, kind):
+        vs = d["vars"]
+        g = {v: x[1] for v, x in zip(vs, d["du"])}
+        h = {}
+        if kind == 2:
+            m = len(vs)
+            for i, u in enumerate(vs):
+                for j, w in enumerate(vs):
+                    h[(u, w)] = d["dd"]["data"][i * m + j][1]
+        return d["re"][1], g, h
+    for k, (kind, oc, a, b, b2, e1, e2) in enumerate(jobs):
+        ctx.evaluations += 1
+        ctx.count("layout pairs (aligned vs re-listed right operand): %s" % OPN[oc])
+        ctx.nontriv(("pair", tuple(e2)))
+        sch = ["dual" if kind == 1 else "dual2"]
+        d1, d2 = dg.decode(out[k], sch), dg.decode(out[n + k], sch)
+        what = None
+        if d1[0] != d2[0]:
+            what = "outcome classes differ: %s vs %s" % (d1[0], d2[0])
+        elif d1[0] == "ok":
+            r1, g1, h1 = by_name(d1[1][0], kind)
+            r2, g2, h2 = by_name(d2[1][0], kind)
+            def close(x, y):
+                return x == y or (x != x and y != y) or abs(x - y) <= 1e-12 * max(abs(x), abs(y))
+            if not close(r1, r2):
+                what = "value %r vs %r" % (r1, r2)
+            for v in set(g1) | set(g2):
+                if not close(g1.get(v, 0.0), g2.get(v, 0.0)):
+                    what = "derivative for %s: %r vs %r" % (v, g1.get(v, 0.0), g2.get(v, 0.0))
+            for uv in set(h1) | set(h2):
+                if not close(h1.get(uv, 0.0), h2.get(uv, 0.0)):
+                    what = "second-order coefficient for %s: %r vs %r" % (uv, h1.get(uv, 0.0), h2.get(uv, 0.0))
+        if what:
+            ctx.violation("the same two numbers give different results when the right operand is listed differently: %s %s %s "
+                          "(aligned) vs right operand on (%s): %s" % (a, OPN[oc], b, ",".join(b2[1]), what),
+                          {"case": e2, "case_aligned": e1, "kind": kind, "operator": OPN[oc], "lhs": list(a), "rhs": list(b),
+                           "rhs_relisted": list(b2), "direct_test": "layout pair", "schema": sch,
+                           "harness_cmd": "echo 'c %s' | harness/target/release/rlharness dual" % " ".join(str(t) for t in e2)})
+
+
 def schema_for(kind, oc):
     if oc >= 5:
         return ["int"]
@@ -311,6 +386,7 @@ def run(ctx):
                           {"case": e, "kind": kind, "operator": OPN[oc], "shared": p, "lhs": list(x), "rhs": list(y), "present": 1,
                            "implementation": dg.plain(da), "model": dg.plain(db),
                            "harness_cmd": "echo 'c %s' | RL_PRESENT=1 harness/target/release/rlharness dual" % " ".join(str(t) for t in e)})
+    layout_pair_stage(ctx)
     # ---- the re-listing entry points called directly
     extra = gen_relist_cases(ctx) + gen_sum_cases(ctx)
     xenc = [c[1] for c in extra]
@@ -343,6 +419,18 @@ def replay(ctx, rp):
     build_harness()
     build_coq(["theories/Run/RunDual.vo"])
     c = rp["case"]
+    if rp.get("direct_test") == "layout pair":
+        o = run_harness("dual", ["c " + " ".join(str(x) for x in rp["case_aligned"]), "c " + " ".join(str(x) for x in c)])
+        d1, d2 = dg.decode(o[0], rp["schema"]), dg.decode(o[1], rp["schema"])
+        print("aligned  ", dg.plain(d1), "\nre-listed", dg.plain(d2))
+        ctx.cleanup()
+        if d1[0] != "ok" or d2[0] != "ok":
+            return 0 if d1[0] == d2[0] else 1
+        x, y = d1[1][0], d2[1][0]
+        gx = {v: f[1] for v, f in zip(x["vars"], x["du"])}
+        gy = {v: f[1] for v, f in zip(y["vars"], y["du"])}
+        cl = lambda p, q: p == q or abs(p - q) <= 1e-12 * max(abs(p), abs(q))
+        return 0 if cl(x["re"][1], y["re"][1]) and all(cl(gx.get(v, 0.0), gy.get(v, 0.0)) for v in set(gx) | set(gy)) else 1
     a = run_harness("dual", ["c " + " ".join(str(x) for x in c)], present=rp.get("present", 0))[0]
     b = coq_eval("Run.RunDual", "runDual", [c], ctx.work)[0]
     print("implementation", a, "\nmodel", b)
